@@ -781,6 +781,8 @@ func oracleSpdx(op M, res any, exec func(M) any) []Finding {
 				if !Equal(identityAttrs(ns[0]), identityAttrs(rs[0])) {
 					add("C03", "identity attributes of node %q change across SPDX: %s vs %s", id, js(identityAttrs(ns[0])), js(identityAttrs(rs[0])))
 				}
+			} else if !ok && dv.Nodup() && asInt(ns[0]["type"]) <= 1 && spdxIDRe.MatchString(id) && id != "DOCUMENT" && !strings.HasPrefix(id, "SPDXRef-") && !strings.HasPrefix(id, "protobom-") {
+				add("C03", "node %q (name %s) was written and is not among the nodes read back", id, js(attrOf(ns[0], "Name")))
 			}
 		}
 	}
